@@ -1,0 +1,9 @@
+//go:build verif
+
+package event
+
+// VerifMergeEvents exposes the merge step that ProcessEvents / MergeEvents apply to a block's events before they are
+// stored and handled (verification harness, C20).
+func VerifMergeEvents(round int64, block string, events []Event) ([]Event, error) {
+	return mergeEvents(round, block, events)
+}
